@@ -10,10 +10,11 @@ LEAN_MODULES = ["LunaVerif.Props.C24", "LunaVerif.Lemmas.C24World", "LunaVerif.L
                 "LunaVerif.Lemmas.C24RankDefs", "LunaVerif.Lemmas.C24RankStep", "LunaVerif.Lemmas.C24Converge"]
 DRIVER = "Driver/C24.lean"
 REQUIRED_THEOREMS = ["write_carries_own_value", "converges_partial", "no_mutual_blocking", "phy_tracks_window",
-                     "settled_regs_equal_requested", "converges", "converges_from_reset", "tx_delay_bounded",
+                     "settled_regs_equal_requested", "write_carries_requested_value", "converges", "converges_from_reset", "tx_delay_bounded",
                      "write_delay_bounded", "dir_low_often_is_not_enough", "coh_step", "rank_step",
                      "rank_reaches_zero"]
-RULE = ("(utmi) the real UTMITranslator with a behavioural PHY holding a register file (a write is accepted when the "
+RULE = ("(utmi; the hypotheses safeCycle / liveCycle of the theorems are evaluated on every trace, by the Lean driver and "
+        "independently by the monitor, and `converges` is checked at its explicit bound) the real UTMITranslator with a behavioural PHY holding a register file (a write is accepted when the "
         "PHY sees command, data, STP uninterrupted), control inputs changing at random cycles — single signals, both "
         "registers at once, reverts to the previous/reset value, i.e. at every phase of an in-flight write and at the "
         "start of a transmission — while the UTMI side transmits and the PHY interleaves receive episodes and "
@@ -43,8 +44,13 @@ PARTIAL = ""
 WIN_IN = ["ulpi_data_in", "ulpi_dir", "ulpi_next", "address", "write_data", "read_request", "write_request"]
 WIN_OUT = ["ulpi_data_out", "ulpi_out_req", "ulpi_stop", "busy", "done", "read_data"]
 EXTRA = ["phy_bus", "phy_r04", "phy_r0A", "phy_other", "phy_writes", "spec_act", "spec_last", "spec_legal",
-         "spec_data"]
+         "spec_data", "env_safe", "env_waited", "env_tlen"]
 BOUND = 200
+
+
+def converge_bound(k, t, n):
+    """convergeBound K T N of Props/C24.lean."""
+    return 3 * (2 * k + 6) + t + (2 * k + 5) * n
 
 
 def gen_cases(tier, rng):
@@ -77,10 +83,11 @@ def run_utmi(desc):
     rows_in, rows_out = U.run_reactive(dut, ins, outs, n, agent=agent, stimulus=desc.get("stimulus"), preload=preload)
     tags = set(agent.tags) if agent else set()
     tags.add("rst" if has_rst else "norst")
-    fails, extra = monitor_regs(rows_in, rows_out, tags, ready_at=(U.CYCLES_1_MS - cfg[2] + 1) if has_rst else 1)
+    fails, extra, env = monitor_regs(rows_in, rows_out, tags,
+                                     ready_at=(U.CYCLES_1_MS - cfg[2] + 1) if has_rst else 1)
     view = U.phy_rx_view(rows_in)
-    outs_cmp = [list(o) + e + [v["act"], v["last"], v["legal"], 256 if v["data"] is None else v["data"]]
-                for o, e, v in zip(rows_out, extra, view)]
+    outs_cmp = [list(o) + e + [v["act"], v["last"], v["legal"], 256 if v["data"] is None else v["data"]] + ev
+                for o, e, v, ev in zip(rows_out, extra, view, env)]
     return Case(cfg, rows_in, outs_cmp, fails, sorted(tags), desc, U.UTMI_IN, U.UTMI_OUT + EXTRA)
 
 
@@ -95,12 +102,29 @@ def monitor_regs(rows_in, rows_out, tags, ready_at=1):
     tx_wait = 0                      # DIR-low cycles a transmission has been waiting for its first tx_ready
     prev_ctrl = None
     nwrites = 0
+    # the hypotheses of the closed-system theorems (safeCycle / liveCycle of Lemmas/C24World.lean), evaluated here
+    # from the ULPI text and the observer's parser state, and compared with the Lean definitions column by column
+    env, env_safe, waited, tlen, prev_dir, must_hold, hold_ok = [], 1, 0, 0, 0, 0, True
+    k_obs = t_obs = 0
+    trace = []                       # per cycle: (control inputs, dir, PHY registers match after the cycle)
     for t, (ri, ro) in enumerate(zip(rows_in, rows_out)):
         c = U.ctrl_of_row(ri)
         want04, want0A = U.function_control(c), U.otg_control(c)
         hist04.append(want04)
         hist0A.append(want0A)
         dir_, nxt = ri[I["dir"]], ri[I["nxt"]]
+        bus, b = ro[O["data_o"]], obs.state
+        if (prev_dir and not dir_ and nxt) or (b == "tx" and dir_) or (b == "idle" and not dir_ and nxt and bus == 0):
+            env_safe = 0
+        presented = (not dir_) and (not prev_dir) and ((b == "idle" and bus >> 6 in (1, 2)) or b == "wdata")
+        waited = waited + 1 if (presented and not nxt) else 0
+        tlen = tlen + 1 if b == "tx" else 0
+        k_obs, t_obs = max(k_obs, waited), max(t_obs, tlen)
+        if must_hold and not ri[I["tx_valid"]]:
+            hold_ok = False
+        must_hold = ri[I["tx_valid"]] and not ro[O["tx_ready"]]
+        prev_dir = dir_
+        env.append([env_safe, waited, tlen])
         obs.step(t, dir_, nxt, ro[O["data_o"]], ro[O["stp"]])
         extra.append([U.bus_code(obs.state), obs.regs[4], obs.regs[10], obs.other_writes, len(obs.writes)])
         if len(obs.writes) > nwrites and not fails:
@@ -126,6 +150,7 @@ def monitor_regs(rows_in, rows_out, tags, ready_at=1):
         elif not dir_:
             stable += 1
         match = obs.regs[4] == want04 and obs.regs[10] == want0A
+        trace.append((tuple(sorted(c.items())), dir_, match))
         if ro[O["busy"]] == 0 and not ri[I["tx_valid"]] and not changed:
             quiet += 1
         else:
@@ -149,7 +174,31 @@ def monitor_regs(rows_in, rows_out, tags, ready_at=1):
                           % tx_wait})
     if match:
         tags.add("converged-at-end")
-    return fails, extra
+    # `converges` at its explicit bound: the trace satisfies liveCycle K T for K = k_obs, T = t_obs (when the PHY
+    # was legal and the transmitter held tx_valid); for every window of constant control inputs that starts after
+    # the start-up timer and is at least convergeBound K T N long (N DIR-high cycles in it) the PHY's registers
+    # must equal the requested settings at its end
+    if env_safe:
+        tags.add("env-safe")
+    if env_safe and hold_ok:
+        tags.add("env-live")
+        start, n_high = None, 0
+        for t, (ctrl, dir_, ok) in enumerate(trace):
+            if t <= ready_at:                      # the state before cycle `start` must have phy_ready set
+                start = None
+                continue
+            if start is None or ctrl != trace[t - 1][0]:
+                start, n_high = t, 0
+            n_high += dir_
+            if t - start + 1 >= converge_bound(k_obs, t_obs, n_high):
+                tags.add("theorem-bound-reached")
+                if not ok and not fails:
+                    fails.append({"cycle": t, "sig": "regs-not-converged-within-theorem-bound", "what":
+                                  "control inputs constant for %d cycles with %d DIR-high cycles, the trace satisfies "
+                                  "liveCycle K=%d T=%d, convergeBound = %d, but the PHY registers differ from the "
+                                  "requested settings" % (t - start + 1, n_high, k_obs, t_obs,
+                                                          converge_bound(k_obs, t_obs, n_high))})
+    return fails, extra, env
 
 
 def run_win(desc):
